@@ -31,6 +31,11 @@ pub fn emit_spawn(aid: usize, spec: &Spec, entry: usize) {
         entry,
         spec.ty as usize,
     ]);
+    if entry == 6 {
+        // a registry lookup that spawns pings the new instance (debug builds): that message needs an id
+        let o = exec::fresh_oid();
+        e(&[ev::PROBE as usize, aid, o]);
+    }
 }
 
 fn mk_stream(aid: usize, s: &StreamSpec) -> CtlStream {
